@@ -1,19 +1,23 @@
 #!/bin/bash
 # usage: seedtest.sh <patch.diff> <budget_s> <id> [<id> ...]
-# Applies a seeded change to /repo, runs the given checks (quick tier, given budget), and undoes it.
-PATCH="$1"; BUDGET="$2"; shift 2
-cd /repo || exit 2
-if ! git diff --quiet; then echo "/repo has uncommitted changes"; exit 2; fi
-git apply "$PATCH" || { echo "patch does not apply"; exit 2; }
-restore() {
-  git -C /repo checkout -- . ; git -C /repo clean -fdq x app cmd 2>/dev/null
-  # rebuild the simulator from the restored tree so that bin/verifsim is never left built from a seeded change
-  (cd /verif/sim && GOFLAGS=-mod=mod GOPROXY=off GOSUMDB=off GOTOOLCHAIN=local go build -tags verif -o /verif/bin/verifsim ./cmd/verifsim)
-}
-trap restore EXIT
-cd /verif
+# Runs the given checks (quick tier, given budget) against /repo + a seeded change WITHOUT touching
+# /repo or /verif/bin: a scratch worktree of /repo gets the patch, a scratch copy of /verif/sim is
+# built against it, evidence and replays go to a scratch directory. Everything is removed afterwards.
+# (The same can be done in place: git -C /repo apply <patch>; ./check.sh <id> quick; git -C /repo checkout -- .)
+PATCH="$(readlink -f "$1")"; BUDGET="$2"; shift 2
+export GOFLAGS=-mod=mod GOPROXY=off GOSUMDB=off GOTOOLCHAIN=local
+S=$(mktemp -d /var/tmp/verif-seedtest.XXXXXX)
+cleanup() { git -C /repo worktree remove --force "$S/repo" 2>/dev/null; rm -rf "$S"; git -C /repo worktree prune; }
+trap cleanup EXIT
+git -C /repo worktree add -q --detach "$S/repo" HEAD || exit 2
+( cd "$S/repo" && git apply "$PATCH" ) || { echo "patch does not apply"; exit 2; }
+mkdir -p "$S/verif"; cp /verif/known_findings.json "$S/verif/"
+cp -r /verif/sim "$S/sim"
+sed -i "s#=> /repo#=> $S/repo#" "$S/sim/go.mod"
+if ! ( cd "$S/sim" && go build -tags verif -o "$S/verifsim" ./cmd/verifsim ) 2>"$S/build.log"; then cat "$S/build.log"; echo "BUILD FAILED"; exit 2; fi
 for id in "$@"; do
-  out=$(VERIF_BUDGET_S=$BUDGET VERIF_DIR=/var/tmp/seedtest-verif ./check.sh "$id" quick 2>&1); rc=$?
+  VERIF_REPO="$S/repo" VERIF_BUDGET_S=$BUDGET VERIF_DIR="$S/verif" "$S/verifsim" check "$id" --tier quick > "$S/out.log" 2>&1; rc=$?
+  out=$(grep -v '^sellingReserve: \|^auction.GetSellingCoin(): ' "$S/out.log")
   echo "== $id rc=$rc: $(echo "$out" | grep -c '^VIOLATION') violation line(s)"
-  echo "$out" | grep '^violation detail\|^VIOLATION\|^HARNESS\|BUILD FAILED' | cut -c1-400 | head -6
+  echo "$out" | grep '^violation detail\|^VIOLATION\|^HARNESS\|BUILD FAILED\|^NOTE' | cut -c1-400 | head -6
 done
